@@ -1344,6 +1344,13 @@ func randomInput(r *core.Rng) Input {
 	if r.Chance(3) {
 		n = 0
 	}
+	if r.Chance(12) {
+		// long arrays: ten and more contexts in one run (a combined backlog), around the digit boundaries
+		n = []int{9, 10, 11, 12, 19, 20, 21, 25, 99, 100, 101}[r.Intn(11)]
+		if n > 30 && !r.Chance(25) {
+			n = 10 + r.Intn(16)
+		}
+	}
 	var in Input
 	malformed := 0
 	if r.Chance(12) {
